@@ -454,7 +454,7 @@ def replacePctStar : Bytes → Bytes
     else x :: replacePctStar (y :: rest)
 
 inductive EscRes where
-  | built (sb : Bytes)
+  | built (sb : Bytes) (rest : Bytes)   -- loop left: text built, `escapedPath[iPath:]`
   | reject                -- one of the `return false` statements
   | fuel
 deriving DecidableEq, Repr
@@ -473,8 +473,8 @@ def escSpan (pat1 ep' : Bytes) (normalize : Bool) : Option (Bytes × Nat) :=
 
 /-- the lock-step loop of `matchPatternWithEscapeSequence`: builds `sb` -/
 def escLoop : Nat → Bytes → Bytes → Bytes → EscRes
-  | _, [], _, sb => .built sb
-  | _, _ :: _, [], sb => .built sb
+  | _, [], erest, sb => .built sb erest
+  | _, _ :: _, [], sb => .built sb []
   | 0, _ :: _, _ :: _, _ => .fuel
   | fuel + 1, pc :: prest, ec :: erest, sb =>
       -- decode an escape sequence of the path
@@ -509,7 +509,13 @@ def escLoop : Nat → Bytes → Bytes → Bytes → EscRes
 /-- `matchPatternWithEscapeSequence(escapedPath, matchPath)` -/
 def escMatch (escapedPath pat : Bytes) : Bool :=
   match escLoop (pat.length + 1) pat escapedPath [] with
-  | .built sb => globMatch (replacePctStar pat) (lower sb) == .yes
+  | .built sb rest =>
+    -- since /repo 84b6e63: whatever the pattern did not reach still is part of the path
+    if rest.length > 0 then
+      match pathUnescape rest with
+      | none => false
+      | some r => globMatch (replacePctStar pat) (lower (sb ++ r)) == .yes
+    else globMatch (replacePctStar pat) (lower sb) == .yes
   | _ => false
 
 def star : Bytes := [cStar]
